@@ -31,6 +31,17 @@ pub fn corpus() -> Vec<(&'static str, IncCfg, Vec<Op>)> {
         Op::OpenFlow { sender: 1, funds: vec![(0, 7000)], allow: vec![], start: None, end: None, asset: 0, amount: 2000, label: None },
         Op::CloseFlow { sender: 1, ident: Ident::Id(1) },
     ]));
+    // a single claim spanning more than EPOCH_CLAIM_CAP (100) epochs: the capped claim must still book what it pays, the rest is
+    // claimed by the next call, and closing refunds exactly funded - claimed
+    let c = cfg_base(10, 0);
+    let mut long: Vec<Op> = vec![
+        honest(&c, 1, 1, 12_000_000, None, Some(121)),
+        Op::OpenPosition { sender: 2, funds: vec![], allow: vec![(10, 5_000)], amount: 5_000, dur: 86_400, receiver: None },
+        Op::OpenPosition { sender: 3, funds: vec![], allow: vec![(10, 2_500)], amount: 2_500, dur: 86_400, receiver: None },
+    ];
+    for _ in 0..104 { long.push(Op::NewEpoch); long.push(Op::Snapshot); }
+    long.extend(vec![Op::Claim { sender: 2 }, Op::Claim { sender: 2 }, Op::Claim { sender: 3 }, Op::CloseFlow { sender: 1, ident: Ident::Id(1) }]);
+    v.push(("claim_beyond_epoch_cap", c.clone(), long));
     // (ii) close of an expanded flow returns only the original amount
     let c = cfg_base(10, 0);
     v.push(("witness_close_expanded", c.clone(), vec![
